@@ -1,7 +1,7 @@
 """C04 -- boolean/spin conversions, enumerations and exports preserve the function."""
 import numpy as np
 
-from .. import gen, oracles, ref
+from .. import core, gen, oracles, ref
 from .. import lib as L
 from ..ref import Poly, frac
 
@@ -29,7 +29,8 @@ def FLOORS(tier):
     f = {"convert_solution-checks": 3000 if q else 10 ** 5, "export:Q": 60, "export:hJ": 60,
          "export:matrix_to_qubo": 60, "export:qubo_to_matrix": 100, "real-coefficients": 100,
          "raw-repeated-labels": 50, "all-ones-solution": 30, "user-mapping:set_mapping": 60, "user-mapping:set_reverse_mapping": 60,
-         "export-before-relabelling": 80, "term-added-after-user-mapping": 40}
+         "export-before-relabelling": 80, "term-added-after-user-mapping": 40,
+         "second-call-after-result-edited": 300}
     for fn, (kind, d2) in FREE.items():
         for t in SRC[kind]:
             if d2 and t in ("PUBO", "PCBO", "PUSO", "PCSO", "PUBOMatrix", "PUSOMatrix"):
@@ -112,6 +113,14 @@ def case_free(ctx, rng):
     if len(src.d) >= 2 and len(src.vars()) >= 2:
         ctx.nontrivial((fn, tn, sorted(terms.items(), key=repr)))
     ctx.sample({"function": fn, "source_type": tn, "terms": terms, "result": dict(r)}, limit=2)
+    if rng.random() < 0.3:
+        # the caller edits what it got back and converts the same source again: the second result must be as good as the first
+        first = dict(r)
+        core.scribble(r)
+        ok, r2 = ctx.call(fn, getattr(L.utils, fn), m, _w=w)
+        ctx.count("second-call-after-result-edited")
+        if ok and (dict(r2) != first or r2 is r):
+            ctx.violation("%s:second-call-differs" % fn, "after the first result was edited, converting the same source again gives %r (first: %r)" % (dict(r2), first), w)
 
 
 def case_method(ctx, rng):
@@ -176,6 +185,16 @@ def case_method(ctx, rng):
     if not ok:
         return
     ctx.cat("method:%s:%s" % (tn, form))
+    if rng.random() < 0.25:
+        first = dict(D)
+        core.scribble(D)
+        ok, D = ctx.call("to_" + form, getattr(M, "to_" + form if form != "enum" else "to_enumerated"), _w=w)
+        ctx.count("second-call-after-result-edited")
+        if not ok:
+            return
+        if dict(D) != first:
+            ctx.violation("to_%s:second-call-differs" % form, "after the first result was edited, the same export gives %r (first: %r)" % (dict(D), first), w)
+            return
     dk = "spin" if dform in ("quso", "puso") else "bool"
     if type(D).__name__ != oracles.FORM_TYPE[dform]:
         ctx.violation("to_%s:result-type" % form, "%s.to_%s returned %s" % (tn, form, type(D).__name__), w)
